@@ -62,6 +62,8 @@ def _c07_falsy(plan, violation, entry):
         if isinstance(t, list):
             if len(t) == 3 and t[0] == "attr" and isinstance(t[2], str):
                 fields.add(t[2])
+            if len(t) == 3 and t[0] == "idx":
+                fields.add("tags")
             if len(t) >= 3 and t[0] == "call":
                 fields.update(("a", "b"))
             if t and t[0] in ("fp", "cp"):
@@ -72,7 +74,13 @@ def _c07_falsy(plan, violation, entry):
         walk(q.get("conds", []))
     for v in plan["pool"]["vars"]:
         fields.update((v.get("kw") or {}).keys())
-    labels = set(plan["world"]["domains"].get("d0", []))
+    labels = set()
+    for dom in plan["world"]["domains"].values():
+        labels |= set(dom)
+    if any(v.get("dom") is None for v in plan["pool"]["vars"]):
+        labels |= {o["l"] for o in plan["world"]["objects"]}
+    if entry.get("property") == "C07":
+        labels = set(plan["world"]["domains"].get("d0", []))
     for o in plan["world"]["objects"]:
         if o["l"] in labels:
             for f in fields:
